@@ -188,8 +188,21 @@ namespace {
 
    using Program = void (*)(ipr::impl::Lexicon&, ipr::impl::Translation_unit&, Sink&, int salt);
 
+   // What every program observes first: the nodes a unit comes with belong to its own Lexicon (C20-G: the name of the global
+   // namespace remembered in a function-local static names every later unit with a node of the FIRST Lexicon of the process).
+   void unit_facts(ipr::impl::Lexicon& lex, ipr::impl::Translation_unit& unit, Sink& s)
+   {
+      const ipr::Translation_unit& u = unit;
+      auto& gn = u.global_namespace();
+      s.node(gn); s.node(gn.name()); s.node(gn.region()); s.node(gn.region().bindings());
+      s.note(std::string("global namespace named by the unnamed identifier of its own Lexicon: ") + (&gn.name() == static_cast<const ipr::Name*>(&lex.get_identifier(u8"")) ? "yes" : "NO")
+             + ", typed namespace: " + (&gn.type() == &static_cast<const ipr::Lexicon&>(lex).namespace_type() ? "yes" : "NO")
+             + ", its region is the unit's global region: " + (&gn.region() == static_cast<const ipr::Region*>(unit.global_region()) ? "yes" : "NO"));
+   }
+
    void prog_declare_print(ipr::impl::Lexicon& lex, ipr::impl::Translation_unit& unit, Sink& s, int salt)
    {
+      unit_facts(lex, unit, s);
       auto& name = lex.get_identifier(salt % 2 ? u8"bufsz" : u8"count");
       auto& type = lex.get_qualified(lex.const_qualifier(), lex.int_type());
       auto* v = unit.global_region()->declare_var(name, type);
@@ -205,8 +218,9 @@ namespace {
       s.note(print_unit(lex, unit, false));
    }
 
-   void prog_type_towers(ipr::impl::Lexicon& lex, ipr::impl::Translation_unit&, Sink& s, int salt)
+   void prog_type_towers(ipr::impl::Lexicon& lex, ipr::impl::Translation_unit& unit, Sink& s, int salt)
    {
+      unit_facts(lex, unit, s);
       const ipr::Type* t = salt % 2 ? &lex.char_type() : &lex.int_type();
       for (int i = 0; i < 4; ++i) { t = &lex.get_pointer(*t); s.node(*t); }
       auto& ri = lex.get_reference(lex.int_type());
@@ -227,8 +241,9 @@ namespace {
       s.note(print_one(lex, ipr::xpr_type(lex.get_array(*t, *lex.make_literal(lex.int_type(), u8"8")))));
    }
 
-   void prog_interning(ipr::impl::Lexicon& lex, ipr::impl::Translation_unit&, Sink& s, int salt)
+   void prog_interning(ipr::impl::Lexicon& lex, ipr::impl::Translation_unit& unit, Sink& s, int salt)
    {
+      unit_facts(lex, unit, s);
       static const char8_t* const words[] = { u8"alpha", u8"int", u8"a-rather-long-word-that-needs-several-granules", u8"", u8"const", u8"alpha", u8"beta", u8"unsigned long long", u8"x" };
       std::vector<const ipr::String*> got;
       int k = 0;
@@ -249,8 +264,9 @@ namespace {
       s.note(&id == &lex.get_identifier(lex.get_string(u8"alpha")) ? "one identifier" : "TWO identifiers");
    }
 
-   void prog_atoms(ipr::impl::Lexicon& lex, ipr::impl::Translation_unit&, Sink& s, int salt)
+   void prog_atoms(ipr::impl::Lexicon& lex, ipr::impl::Translation_unit& unit, Sink& s, int salt)
    {
+      unit_facts(lex, unit, s);
       auto& l1 = lex.get_literal(lex.int_type(), salt % 2 ? u8"7" : u8"9");
       auto& l2 = lex.get_literal(lex.char_type(), u8"7");
       auto& lab = lex.get_label(lex.get_identifier(u8"retry"));
@@ -286,6 +302,7 @@ namespace {
 
    void prog_regions(ipr::impl::Lexicon& lex, ipr::impl::Translation_unit& unit, Sink& s, int salt)
    {
+      unit_facts(lex, unit, s);
       auto& G = *unit.global_region();
       auto* c = lex.make_class(G);
       c->id = &lex.get_identifier(salt % 2 ? u8"Widget" : u8"Gadget");
